@@ -4,16 +4,18 @@ package syncer
 
 // C16 — a follower's cache is a faithful copy of the leader's stream.
 //
-// The real ReplicaLeader.Handle and the real ReplicaFollower steps
-// (protoHandShake, preSync, metaSync, rdbSync, aofSync — driven exactly like
-// ReplicaFollower.Run's state machine) run in-process, in real time (the disk
-// reader sleeps while holding its mutex, which a synctest bubble cannot advance
-// past), over two real channels (StoreChannel on t.TempDir() / MemoryChannel). gRPC is
-// replaced by c16Net: the generated client/server stream interfaces over Go
-// channels, which can cut the transfer after any message and re-chunk CONTINUE
-// messages. One op line per follower session:
+// The real ReplicaFollower.Run talks over real gRPC (loopback TCP, generated
+// client and server code) to the real syncer.ServiceReplica -> ReplicaLeader.Handle,
+// in real time (the disk reader sleeps while holding its mutex, which a synctest
+// bubble cannot advance past), over two real channels (StoreChannel on t.TempDir() /
+// MemoryChannel). The harness owns only: the server-side stream wrapper (counts and
+// re-chunks CONTINUE messages, fails every Send after `cut` messages), the follower's
+// WaitCloser/Logger wrappers (Run's error pauses end a session; the logged error gives
+// the outcome), and the leader's Input/Channel wrappers, which let the leader's own
+// input act (switch run id, resynchronise, grow, collect) between the reads of one
+// request. One op line per pass of Run (handshake .. first error):
 //
-//   sess <bk> <L> <F> <ch> <cut> <lost>   ->  m … / end <stage> <class> / F <store>
+//   sess <bk> <Ls> <views> <F> <ch> <cut> <lost> <fuel>  ->  m … / end <stage> <class> / F <store>
 //
 // (formats: lean/GunYu/Drive/C16.lean). Monitors (independent of the Lean model):
 // every byte / snapshot the follower holds under an id is the leader's byte at the
@@ -27,6 +29,7 @@ import (
 	"errors"
 	"fmt"
 	"io"
+	"net"
 	"os"
 	"path/filepath"
 	"sort"
@@ -37,10 +40,11 @@ import (
 	"time"
 
 	"google.golang.org/grpc"
-	"google.golang.org/grpc/metadata"
 
 	"github.com/mgtv-tech/redis-GunYu/config"
 	pb "github.com/mgtv-tech/redis-GunYu/pkg/api/golang"
+	"github.com/mgtv-tech/redis-GunYu/pkg/cluster"
+	"github.com/mgtv-tech/redis-GunYu/pkg/log"
 	usync "github.com/mgtv-tech/redis-GunYu/pkg/sync"
 	"github.com/mgtv-tech/redis-GunYu/pkg/vfutil"
 )
@@ -140,6 +144,7 @@ func c16ParseStore(s string) c16Store {
 }
 
 type c16Leader struct {
+	Serving bool // ServiceReplica's gate: role leader, state run
 	Started bool
 	Ids     []string
 	Cur     string
@@ -174,37 +179,114 @@ func (l c16Leader) String() string {
 		}
 		ids = strings.Join(p, ",")
 	}
-	return fmt.Sprintf("%s:%s:%s:%s:%s:%s", c16B(l.Started), ids, c16Id(l.Cur), l.D.String(), c16B(l.WOpen), vfutil.Hex(l.Tail))
+	return fmt.Sprintf("%s:%s:%s:%s:%s:%s:%s", c16B(l.Serving), c16B(l.Started), ids, c16Id(l.Cur), l.D.String(), c16B(l.WOpen), vfutil.Hex(l.Tail))
 }
 
 func c16ParseLeader(s string) c16Leader {
 	f := strings.Split(s, ":")
-	if len(f) == 5 {
+	if len(f) == 5 { // older corpus lines: no tail, no gate
 		f = append(f, "-")
 	}
-	if len(f) != 6 {
+	if len(f) == 6 {
+		f = append([]string{"1"}, f...)
+	}
+	if len(f) != 7 {
 		panic("bad leader spec " + s)
 	}
-	l := c16Leader{Started: f[0] == "1", Cur: c16UnId(f[2]), D: c16ParseData(f[3]), WOpen: f[4] == "1", Tail: vfutil.UnHex(f[5])}
-	if f[1] != "." {
-		for _, x := range strings.Split(f[1], ",") {
+	l := c16Leader{Serving: f[0] == "1", Started: f[1] == "1", Cur: c16UnId(f[3]), D: c16ParseData(f[4]), WOpen: f[5] == "1", Tail: vfutil.UnHex(f[6])}
+	if f[2] != "." {
+		for _, x := range strings.Split(f[2], ",") {
 			l.Ids = append(l.Ids, c16UnId(x))
 		}
 	}
 	return l
 }
 
-// one follower session of a case
+// one pass of the follower's Run (handshake .. first error) of a case
 type c16Round struct {
-	L       c16Leader
-	Cut     int  // messages delivered before the transport fails (<0: never)
-	Split   int  // >0: CONTINUE messages are re-chunked into pieces of 1..Split bytes
-	Quiet   bool // the cut happens when the follower has persisted everything it received
-	Restart bool // (disk) the follower process is restarted before this session
+	Ls      []c16Leader // states of the leader during the session, Ls[0] at its start
+	Views   [][4]int    // per request: state read at gate/selfInspection, StartPoint, IsValidOffset, NewReader
+	Cut     int         // messages delivered before the transport fails (<0: never)
+	Split   int         // >0: CONTINUE messages are re-chunked into pieces of 1..Split bytes
+	Quiet   bool        // the cut happens when the follower has persisted everything it received
+	Restart bool        // (disk) the follower process is restarted before this session
+}
+
+func (r c16Round) view(n int) [4]int {
+	if n < len(r.Views) {
+		return r.Views[n]
+	}
+	if len(r.Views) == 0 {
+		return [4]int{}
+	}
+	k := r.Views[len(r.Views)-1][3]
+	return [4]int{k, k, k, k}
+}
+
+func (r c16Round) static() bool {
+	for _, v := range r.Views {
+		if v != [4]int{} {
+			return false
+		}
+	}
+	return true
+}
+
+func (r c16Round) lsString() string {
+	p := make([]string, len(r.Ls))
+	for i, l := range r.Ls {
+		p[i] = l.String()
+	}
+	return strings.Join(p, ";")
+}
+
+func (r c16Round) viewsString() string {
+	if len(r.Views) == 0 {
+		return "."
+	}
+	p := make([]string, len(r.Views))
+	for i, v := range r.Views {
+		p[i] = fmt.Sprintf("%d.%d.%d.%d", v[0], v[1], v[2], v[3])
+	}
+	return strings.Join(p, ",")
 }
 
 func (r c16Round) String() string {
-	return fmt.Sprintf("%s@%d@%d@%s@%s", r.L.String(), r.Cut, r.Split, c16B(r.Quiet), c16B(r.Restart))
+	return fmt.Sprintf("%s@%s@%d@%d@%s@%s", r.lsString(), r.viewsString(), r.Cut, r.Split, c16B(r.Quiet), c16B(r.Restart))
+}
+
+func c16ParseRound(rs string) (r c16Round, err error) {
+	q := strings.Split(rs, "@")
+	if len(q) == 5 { // older corpus lines: one static leader
+		q = append([]string{q[0], "."}, q[1:]...)
+	}
+	if len(q) != 6 {
+		return r, fmt.Errorf("bad round %q", rs)
+	}
+	for _, ls := range strings.Split(q[0], ";") {
+		r.Ls = append(r.Ls, c16ParseLeader(ls))
+	}
+	if q[1] != "." {
+		for _, vs := range strings.Split(q[1], ",") {
+			var v [4]int
+			f := strings.Split(vs, ".")
+			if len(f) != 4 {
+				return r, fmt.Errorf("bad view %q", vs)
+			}
+			for i := range v {
+				v[i], _ = strconv.Atoi(f[i])
+				if v[i] < 0 || v[i] >= len(r.Ls) {
+					return r, fmt.Errorf("bad view %q", vs)
+				}
+			}
+			r.Views = append(r.Views, v)
+		}
+	}
+	r.Cut, _ = strconv.Atoi(q[2])
+	r.Split, _ = strconv.Atoi(q[3])
+	r.Quiet = q[4] == "1"
+	r.Restart = q[5] == "1"
+	return r, nil
 }
 
 type c16Case struct {
@@ -239,13 +321,11 @@ func c16ParseCase(line string) (c c16Case, err error) {
 	c.Seed, _ = strconv.ParseUint(f[2], 10, 64)
 	c.F = c16ParseStore(f[3])
 	for _, rs := range f[4:] {
-		q := strings.Split(rs, "@")
-		if len(q) != 5 {
-			return c, fmt.Errorf("bad round %q", rs)
+		r, e := c16ParseRound(rs)
+		if e != nil {
+			return c, e
 		}
-		cut, _ := strconv.Atoi(q[1])
-		sp, _ := strconv.Atoi(q[2])
-		c.Rounds = append(c.Rounds, c16Round{L: c16ParseLeader(q[0]), Cut: cut, Split: sp, Quiet: q[3] == "1", Restart: q[4] == "1"})
+		c.Rounds = append(c.Rounds, r)
 	}
 	return c, nil
 }
@@ -303,7 +383,11 @@ func c16MkData(id string, base, right int64, snap bool) *c16Data {
 
 // ---------------------------------------------------------------- real channels
 
-type c16Input struct{ ids []string }
+type c16Input struct {
+	mu   sync.Mutex
+	ids  []string
+	hook func() // called before every RunIds read
+}
 
 func (i *c16Input) Id() string                              { return "vf-input" }
 func (i *c16Input) Run() error                              { return nil }
@@ -311,7 +395,15 @@ func (i *c16Input) Stop() error                             { return nil }
 func (i *c16Input) SetOutput(Output)                        {}
 func (i *c16Input) SetChannel(Channel)                      {}
 func (i *c16Input) StateNotify(SyncState) usync.WaitChannel { return nil }
-func (i *c16Input) RunIds() []string                        { return i.ids }
+func (i *c16Input) RunIds() []string {
+	if i.hook != nil {
+		i.hook()
+	}
+	i.mu.Lock()
+	defer i.mu.Unlock()
+	return i.ids
+}
+func (i *c16Input) set(ids []string) { i.mu.Lock(); i.ids = ids; i.mu.Unlock() }
 
 func c16NewChannel(bk string, dir string, logSize int64) Channel {
 	if bk == "d" {
@@ -653,168 +745,405 @@ func c16Observe(bk string, ch Channel, dir string) (c16Store, []string, int) {
 	return st, problems, stalls
 }
 
-// ---------------------------------------------------------------- fake gRPC
+// ---------------------------------------------------------------- the live leader
 
 var c16ErrCut = errors.New("vf: transport cut")
 
-type c16RpcErr struct{ err error }
+// c16LeaderRT is the real leader side of one session: real channel, real
+// ReplicaLeader, real syncer (for ServiceReplica's gate). moveTo performs, on the
+// real channel, what the leader's input does (syncer/input.go: setRunIds, DelRunId,
+// SetRunId, NewRdbWriter/NewAofWritter, stream bytes) to get from one state to another.
+type c16LeaderRT struct {
+	bk      string
+	logSize int64
+	dir     string
+	lch     Channel
+	input   *c16Input
+	leader  *ReplicaLeader
+	sy      *syncer
+	ls      []c16Leader
+	cur     int
+	closeW  func()
+	appendW func([]byte) error
+	err     error
+}
 
-func (e c16RpcErr) Error() string { return "rpc error: " + e.err.Error() }
+func c16Extends(a, b *c16Data) bool { // b = a + more stream
+	return a != nil && b != nil && a.Base == b.Base && a.HasSnap == b.HasSnap && bytes.Equal(a.Snap, b.Snap) &&
+		len(b.Bytes) >= len(a.Bytes) && bytes.Equal(a.Bytes, b.Bytes[:len(a.Bytes)])
+}
 
-type c16Net struct {
-	mu        sync.Mutex
-	leader    *ReplicaLeader
-	lwait     usync.WaitCloser
-	ctx       context.Context
-	cancel    context.CancelFunc
-	cut       int
-	split     int
-	quiet     bool
-	rnd       *vfutil.Rand
-	delivered []*pb.SyncResponse
-	complete  bool // cut because every byte the leader holds was delivered
-	lright    int64
-	aofOn     bool
-	aofStart  int64
-	aofBytes  int64
-	everAof   bool
-	fch       Channel
-	tail      []byte
-	grow      func([]byte) error
-	growErr   error
+func (rt *c16LeaderRT) moveTo(j int) {
+	if j == rt.cur || rt.err != nil {
+		return
+	}
+	a, b := rt.ls[rt.cur], rt.ls[j]
+	rt.cur = j
+	rt.input.set(b.Ids)
+	rt.leader.start.Store(b.Started)
+	rt.sy.guard.Lock()
+	if b.Serving {
+		rt.sy.role, rt.sy.state = SyncerRoleLeader, SyncerStateRun
+	} else {
+		rt.sy.role, rt.sy.state = SyncerRoleFollower, SyncerStateRun
+	}
+	rt.sy.guard.Unlock()
+	switch {
+	case a.Cur == b.Cur && c16SameData(a.D, b.D) && a.WOpen == b.WOpen:
+		// only the input ids / flags changed
+	case a.Cur == b.Cur && a.WOpen && b.WOpen && c16Extends(a.D, b.D):
+		if extra := b.D.Bytes[len(a.D.Bytes):]; len(extra) > 0 {
+			rt.err = rt.appendW(extra)
+		}
+	case a.Cur != b.Cur && a.Cur != "" && b.Cur != "" && a.D != nil && c16SameData(a.D, b.D):
+		// PSYNC2 fail-over: +CONTINUE <new id> on reconnect — the cache is relabelled
+		rt.closeW()
+		if rt.err = rt.lch.SetRunId(b.Cur); rt.err == nil && b.WOpen {
+			rt.closeW, rt.appendW, rt.err = c16FillW(rt.lch, &c16Data{Base: b.D.right()}, true)
+		}
+	default:
+		// full resynchronisation / collection: the cache is replaced
+		rt.closeW()
+		if id := rt.lch.RunId(); id != "" {
+			rt.err = rt.lch.DelRunId(id)
+		}
+		if rt.err == nil && b.Cur != "" {
+			rt.err = rt.lch.SetRunId(b.Cur)
+		}
+		if rt.err == nil {
+			rt.closeW, rt.appendW, rt.err = c16FillW(rt.lch, b.D, b.WOpen)
+		}
+	}
+}
+
+// the leader's channel as Handle sees it: IsValidOffset and NewReader are read points
+type c16LChan struct {
+	Channel
+	hook func(point int)
+}
+
+func (c *c16LChan) IsValidOffset(o Offset) bool { c.hook(2); return c.Channel.IsValidOffset(o) }
+func (c *c16LChan) NewReader(o Offset) (ChannelReader, error) {
+	c.hook(3)
+	return c.Channel.NewReader(o)
+}
+
+// ---------------------------------------------------------------- one session on the server side
+
+// metaSync rounds per session (the model's `fuel`)
+const c16Fuel = 3
+
+type c16Sess struct {
+	mu       sync.Mutex
+	rt       *c16LeaderRT
+	round    c16Round
+	cut      int
+	rnd      *vfutil.Rand
+	fch      Channel
+	sent     []*pb.SyncResponse
+	sentIn   []int // request each message was sent in
+	rpc      int // requests seen
+	runIds   int // RunIds reads of the current request
+	sentRPC  int
+	firstRPC *pb.SyncResponse
+	metas    int
+	cutOn    bool // every further Send fails
+	complete bool // … because everything the leader holds was delivered
+	fuelHit  bool
+	rpcErr   bool
+	aofOn    bool
+	aofStart int64
+	aofBytes int64
+	lright   int64
+	tail     []byte
+}
+
+func (ss *c16Sess) hook(point int) {
+	ss.mu.Lock()
+	n := ss.rpc - 1
+	ss.mu.Unlock()
+	ss.rt.moveTo(ss.round.view(n)[point])
+}
+
+func (ss *c16Sess) quiesce() {
+	ss.mu.Lock()
+	on, want := ss.round.Quiet && ss.aofOn && ss.aofBytes > 0, ss.aofStart+ss.aofBytes
+	ss.mu.Unlock()
+	if on { // the follower has persisted everything that was sent
+		c16Wait(func() bool { _, r := ss.fch.GetOffsetRange(ss.fch.RunId()); return r >= want }, time.Second)
+	}
 }
 
 type c16Srv struct {
-	n  *c16Net
-	ch chan *pb.SyncResponse
+	pb.ApiService_SyncServer
+	ss *c16Sess
 }
 
-func (s *c16Srv) push(r *pb.SyncResponse) error {
-	select {
-	case s.ch <- r:
-		return nil
-	case <-s.n.ctx.Done():
+func (w *c16Srv) push(m *pb.SyncResponse) error {
+	ss := w.ss
+	ss.mu.Lock()
+	if ss.cutOn || len(ss.sent) >= ss.cut {
+		ss.cutOn = true
+		ss.mu.Unlock()
+		ss.quiesce()
 		return c16ErrCut
 	}
+	ss.sent = append(ss.sent, m)
+	ss.sentIn = append(ss.sentIn, ss.rpc)
+	if ss.sentRPC == 0 {
+		ss.firstRPC = m
+	}
+	ss.sentRPC++
+	if ss.aofOn && m.GetCode() == pb.SyncResponse_CONTINUE {
+		ss.aofBytes += m.GetSize()
+	}
+	if m.GetCode() == pb.SyncResponse_META && m.GetMeta().GetAof() {
+		ss.aofOn = true
+		ss.aofStart, ss.aofBytes = m.GetOffset(), 0
+	}
+	ss.mu.Unlock()
+	if err := w.ApiService_SyncServer.Send(m); err != nil {
+		return err
+	}
+	ss.mu.Lock()
+	done := ss.aofOn && ss.aofStart+ss.aofBytes >= ss.lright
+	if done {
+		ss.cutOn, ss.complete = true, true
+	}
+	ss.mu.Unlock()
+	if done {
+		// nothing more will come: end the request like a transport failure would
+		ss.quiesce()
+		go ss.rt.sy.wait.Close(nil)
+	}
+	return nil
 }
 
-func (s *c16Srv) Send(r *pb.SyncResponse) error {
+func (w *c16Srv) Send(r *pb.SyncResponse) error {
+	ss := w.ss
 	if r.GetCode() == pb.SyncResponse_META && r.GetMeta().GetAof() {
 		// the leader's stream reader is open: its input goes on writing
-		s.n.mu.Lock()
-		tail := s.n.tail
-		s.n.tail = nil
-		s.n.mu.Unlock()
-		if len(tail) > 0 {
-			err := s.n.grow(tail)
-			s.n.mu.Lock()
-			s.n.growErr = err
-			s.n.lright += int64(len(tail))
-			s.n.mu.Unlock()
+		ss.mu.Lock()
+		tail := ss.rt.ls[ss.rt.cur].Tail
+		grown := ss.tail != nil
+		if !grown {
+			ss.tail = tail
+			if ss.rt.ls[ss.rt.cur].D != nil {
+				ss.lright = ss.rt.ls[ss.rt.cur].D.right() + int64(len(tail))
+			}
+		}
+		ss.mu.Unlock()
+		if !grown && len(tail) > 0 {
+			if err := ss.rt.appendW(tail); err != nil && ss.rt.err == nil {
+				ss.rt.err = err
+			}
 		}
 	}
-	if s.n.split > 0 && r.GetCode() == pb.SyncResponse_CONTINUE && len(r.GetData()) > 1 {
+	if ss.round.Split > 0 && r.GetCode() == pb.SyncResponse_CONTINUE && len(r.GetData()) > 1 {
 		// what sendData emits had ioReader.Read returned smaller pieces
 		data := r.GetData()
 		start := r.GetOffset() - int64(len(data))
 		for len(data) > 0 {
-			s.n.mu.Lock()
-			k := 1 + s.n.rnd.Intn(s.n.split)
-			s.n.mu.Unlock()
+			ss.mu.Lock()
+			k := 1 + ss.rnd.Intn(ss.round.Split)
+			ss.mu.Unlock()
 			if k > len(data) {
 				k = len(data)
 			}
 			start += int64(k)
-			if err := s.push(&pb.SyncResponse{Code: pb.SyncResponse_CONTINUE, Offset: start, Size: int64(k), Data: data[:k]}); err != nil {
+			if err := w.push(&pb.SyncResponse{Code: pb.SyncResponse_CONTINUE, Offset: start, Size: int64(k), Data: data[:k]}); err != nil {
 				return err
 			}
 			data = data[k:]
 		}
 		return nil
 	}
-	return s.push(r)
-}
-func (s *c16Srv) SetHeader(metadata.MD) error  { return nil }
-func (s *c16Srv) SendHeader(metadata.MD) error { return nil }
-func (s *c16Srv) SetTrailer(metadata.MD)       {}
-func (s *c16Srv) Context() context.Context     { return s.n.ctx }
-func (s *c16Srv) SendMsg(m interface{}) error  { return nil }
-func (s *c16Srv) RecvMsg(m interface{}) error  { return nil }
-
-type c16Cli struct {
-	n    *c16Net
-	ch   chan *pb.SyncResponse
-	done chan error
-	fin  bool
-	ferr error
+	return w.push(r)
 }
 
-func (c *c16Cli) Recv() (*pb.SyncResponse, error) {
-	n := c.n
-	n.mu.Lock()
-	stop := len(n.delivered) >= n.cut
-	if !stop && n.aofOn && n.aofStart+n.aofBytes >= n.lright {
-		stop = true
-		n.complete = true
-	}
-	n.mu.Unlock()
-	if stop {
-		if n.quiet && n.aofOn && n.aofBytes > 0 {
-			// the follower has persisted everything it received
-			want := n.aofStart + n.aofBytes
-			c16Wait(func() bool { _, r := n.fch.GetOffsetRange(n.fch.RunId()); return r >= want }, time.Second)
+// the request as cmd/syncer_api.go routes it: ServiceReplica of the input's syncer
+func (ss *c16Sess) serve(req *pb.SyncRequest, stream pb.ApiService_SyncServer) error {
+	ss.mu.Lock()
+	ss.rpc++
+	ss.runIds, ss.sentRPC, ss.firstRPC, ss.aofOn = 0, 0, nil, false
+	rid := req.GetNode().GetRunId()
+	if rid != "" && rid != "?" {
+		ss.metas++
+		if ss.metas > c16Fuel { // a leader that keeps answering with its snapshot: stop here
+			ss.fuelHit, ss.cutOn = true, true
 		}
-		n.cancel()
-		return nil, c16ErrCut
 	}
-	if c.fin {
-		return nil, c.ferr
+	if ss.cutOn || len(ss.sent) >= ss.cut {
+		ss.cutOn = true
+		ss.mu.Unlock()
+		return c16ErrCut
+	}
+	ss.mu.Unlock()
+	ss.hook(0)
+	err := ss.rt.sy.ServiceReplica(req, &c16Srv{stream, ss})
+	ss.mu.Lock()
+	if err != nil && ss.sentRPC == 0 && !ss.cutOn {
+		ss.rpcErr = true
+	}
+	ss.mu.Unlock()
+	return err
+}
+
+// one gRPC server per worker; the current session answers
+type c16Server struct {
+	pb.UnimplementedApiServiceServer
+	mu   sync.Mutex
+	sess *c16Sess
+	addr string
+	gs   *grpc.Server
+}
+
+func (s *c16Server) Sync(req *pb.SyncRequest, stream pb.ApiService_SyncServer) error {
+	s.mu.Lock()
+	ss := s.sess
+	s.mu.Unlock()
+	if ss == nil {
+		return errors.New("vf: no session")
+	}
+	return ss.serve(req, stream)
+}
+
+func c16NewServer() (*c16Server, error) {
+	lis, err := net.Listen("tcp", "127.0.0.1:0")
+	if err != nil {
+		return nil, err
+	}
+	s := &c16Server{addr: lis.Addr().String(), gs: grpc.NewServer()}
+	pb.RegisterApiServiceServer(s.gs, s)
+	go s.gs.Serve(lis)
+	return s, nil
+}
+
+// c16StartSession builds the real leader in state r.Ls[0] and installs it on the server.
+func (x *c16Ctx) startSession(t *testing.T, srv *c16Server, bk string, logSize int64, fch Channel, r c16Round, rnd *vfutil.Rand) (*c16Sess, error) {
+	rt := &c16LeaderRT{bk: bk, logSize: logSize, dir: t.TempDir(), ls: r.Ls}
+	rt.lch = c16NewChannel(bk, rt.dir, logSize)
+	l0 := r.Ls[0]
+	if l0.Cur != "" {
+		if err := rt.lch.SetRunId(l0.Cur); err != nil {
+			return nil, err
+		}
+	}
+	var err error
+	if rt.closeW, rt.appendW, err = c16FillW(rt.lch, l0.D, l0.WOpen); err != nil {
+		return nil, err
+	}
+	cut := r.Cut
+	if cut < 0 {
+		cut = 1 << 30
+	}
+	ss := &c16Sess{rt: rt, round: r, cut: cut, rnd: rnd, fch: fch, lright: -1}
+	if l0.D != nil {
+		ss.lright = l0.D.right()
+	}
+	rt.input = &c16Input{ids: l0.Ids}
+	rt.input.hook = func() {
+		ss.mu.Lock()
+		ss.runIds++
+		k := ss.runIds
+		ss.mu.Unlock()
+		if k == 2 { // Handle's own read of the input ids, just before StartPoint(nil)
+			ss.hook(1)
+		}
+	}
+	rt.leader = NewReplicaLeader(rt.input, &c16LChan{Channel: rt.lch, hook: ss.hook})
+	if l0.Started {
+		rt.leader.Start()
+	}
+	rt.sy = &syncer{logger: log.WithLogger("[vf-syncer] "), wait: usync.NewWaitCloser(nil), leader: rt.leader,
+		role: SyncerRoleFollower, state: SyncerStateRun}
+	if l0.Serving {
+		rt.sy.role = SyncerRoleLeader
+	}
+	srv.mu.Lock()
+	srv.sess = ss
+	srv.mu.Unlock()
+	return ss, nil
+}
+
+func (ss *c16Sess) stop() {
+	ss.mu.Lock()
+	ss.cutOn = true
+	ss.mu.Unlock()
+	ss.rt.sy.wait.Close(nil)
+	ss.rt.closeW()
+	ss.rt.lch.Close()
+	os.RemoveAll(ss.rt.dir)
+}
+
+// ---------------------------------------------------------------- the follower: the real Run
+
+// Run pauses after every error (3 s; 2 s before it returns a role error; 1 s inside
+// handleResp on CLEAR). The long pauses are where one session ends: the harness is
+// told, looks at the cache, and lets Run go on (next session) or stops it.
+type c16FWait struct {
+	usync.WaitCloser
+	pauses chan time.Duration
+	resume chan struct{}
+}
+
+func (w *c16FWait) Sleep(d time.Duration) {
+	if d < 2*time.Second {
+		return
 	}
 	select {
-	case m := <-c.ch:
-		n.mu.Lock()
-		n.delivered = append(n.delivered, m)
-		if n.aofOn && m.GetCode() == pb.SyncResponse_CONTINUE {
-			n.aofBytes += m.GetSize()
-		}
-		if m.GetCode() == pb.SyncResponse_META && m.GetMeta().GetAof() {
-			n.aofOn, n.everAof = true, true
-			n.aofStart, n.aofBytes = m.GetOffset(), 0
-		}
-		n.mu.Unlock()
-		return m, nil
-	case err := <-c.done:
-		c.fin = true
-		if err == nil {
-			c.ferr = io.EOF
-		} else {
-			c.ferr = c16RpcErr{err}
-		}
-		return nil, c.ferr
-	case <-n.ctx.Done():
-		return nil, c16ErrCut
+	case w.pauses <- d:
+	case <-w.Done():
+		return
+	}
+	select {
+	case <-w.resume:
+	case <-w.Done():
 	}
 }
-func (c *c16Cli) Header() (metadata.MD, error) { return nil, nil }
-func (c *c16Cli) Trailer() metadata.MD         { return nil }
-func (c *c16Cli) CloseSend() error             { return nil }
-func (c *c16Cli) Context() context.Context     { return c.n.ctx }
-func (c *c16Cli) SendMsg(m interface{}) error  { return nil }
-func (c *c16Cli) RecvMsg(m interface{}) error  { return nil }
 
-// pb.ApiServiceClient
-func (n *c16Net) Sync(ctx context.Context, in *pb.SyncRequest, opts ...grpc.CallOption) (pb.ApiService_SyncClient, error) {
-	n.mu.Lock()
-	n.aofOn = false
-	n.mu.Unlock()
-	ch := make(chan *pb.SyncResponse)
-	done := make(chan error, 1)
-	srv := &c16Srv{n: n, ch: ch}
-	go func() { done <- n.leader.Handle(n.lwait, in, srv) }()
-	return &c16Cli{n: n, ch: ch, done: done}, nil
+// the error Run logs before it pauses
+type c16FLog struct {
+	log.Logger
+	mu   sync.Mutex
+	last error
 }
 
-// ---------------------------------------------------------------- one session
+func (l *c16FLog) Errorf(format string, v ...interface{}) {
+	if strings.HasPrefix(format, "RunFollower error") && len(v) == 2 {
+		if e, ok := v[1].(error); ok {
+			l.mu.Lock()
+			l.last = e
+			l.mu.Unlock()
+		}
+	}
+}
+func (l *c16FLog) Infof(format string, v ...interface{}) {}
+func (l *c16FLog) take() error {
+	l.mu.Lock()
+	defer l.mu.Unlock()
+	e := l.last
+	l.last = nil
+	return e
+}
+
+type c16Follower struct {
+	rf   *ReplicaFollower
+	w    *c16FWait
+	lg   *c16FLog
+	done chan error
+}
+
+func c16StartFollower(fch Channel, addr string) *c16Follower {
+	rf := NewReplicaFollower(1, "vf-addr", fch, &cluster.RoleInfo{Address: addr})
+	f := &c16Follower{rf: rf, done: make(chan error, 1)}
+	f.w = &c16FWait{WaitCloser: rf.wait, pauses: make(chan time.Duration), resume: make(chan struct{})}
+	f.lg = &c16FLog{Logger: rf.logger}
+	rf.wait = f.w
+	rf.logger = f.lg
+	go func() { f.done <- rf.Run() }()
+	return f
+}
 
 type c16Result struct {
 	msgs     []*pb.SyncResponse
@@ -823,6 +1152,7 @@ type c16Result struct {
 	cutModel int
 	lost     int64
 	chunks   []int64
+	runEnded bool
 }
 
 func c16CodeName(c pb.SyncResponse_Code) string {
@@ -850,185 +1180,122 @@ func c16MsgLine(m *pb.SyncResponse) string {
 		c16B(m.GetMeta().GetAof()), m.GetOffset(), m.GetSize(), vfutil.Hex(m.GetData()))
 }
 
-func c16Classify(err error, last *pb.SyncResponse) string {
-	switch {
-	case err == nil:
-		return "nil"
-	case errors.Is(err, c16ErrCut):
-		return "cut"
-	case errors.Is(err, ErrLeaderTakeover):
-		return "takeover"
-	case strings.Contains(err.Error(), "empty run id"):
-		return "emptyid"
-	case strings.Contains(err.Error(), "discontinuous"):
-		return "discont"
-	}
-	var re c16RpcErr
-	if errors.As(err, &re) {
-		return "rpcerr"
-	}
-	if errors.Is(err, io.EOF) {
-		return "eof"
-	}
-	if last != nil {
-		switch last.GetCode() {
-		case pb.SyncResponse_FAILURE:
-			return "failure"
-		case pb.SyncResponse_ERROR:
-			return "error"
-		case pb.SyncResponse_FAULT:
-			return "fault"
-		case pb.SyncResponse_CLEAR:
-			return "clear"
+// the messages the follower read: it reads one message of the handshake request and one
+// of a request whose first answer is not META (the rest of such an answer is sent into
+// a stream nobody reads)
+func (ss *c16Sess) read() []*pb.SyncResponse {
+	ss.mu.Lock()
+	defer ss.mu.Unlock()
+	var out []*pb.SyncResponse
+	first := map[int]*pb.SyncResponse{}
+	for i, m := range ss.sent {
+		n := ss.sentIn[i]
+		f, seen := first[n]
+		if !seen {
+			first[n] = m
+			out = append(out, m)
+			continue
 		}
+		if n == 1 || f.GetCode() != pb.SyncResponse_META || f.GetMeta().GetRunId() != "" {
+			continue
+		}
+		out = append(out, m)
 	}
-	if errors.Is(err, ErrRestart) {
-		return "restart"
-	}
-	return "other:" + err.Error()
+	return out
 }
 
-// metaSync rounds per session (the model's `fuel`)
-const c16Fuel = 3
-
-// c16Session runs ReplicaFollower.Run's state machine (states 1..5) once, until
-// the first error, against a freshly built leader channel in state r.L.
-func c16Session(t *testing.T, bk string, logSize int64, fch Channel, r c16Round, rnd *vfutil.Rand) (res c16Result, err error) {
-	ldir := t.TempDir()
-	lch := c16NewChannel(bk, ldir, logSize)
-	defer func() { lch.Close(); os.RemoveAll(ldir) }()
-	if r.L.Cur != "" {
-		if err = lch.SetRunId(r.L.Cur); err != nil {
-			return
-		}
+// outcome of the session: what the follower's Run reported, placed by what the server saw
+func (ss *c16Sess) outcome(ferr error) (stage, cls string) {
+	ss.mu.Lock()
+	defer ss.mu.Unlock()
+	switch {
+	case ss.rpc <= 1:
+		stage = "hs"
+	case ss.sentRPC == 0 || ss.firstRPC.GetCode() != pb.SyncResponse_META:
+		stage = "meta"
+	case ss.firstRPC.GetMeta().GetAof():
+		stage = "aof"
+	default:
+		stage = "rdb"
 	}
-	closeW, appendW, err := c16FillW(lch, r.L.D, r.L.WOpen)
-	if err != nil {
-		return
+	msg := ""
+	if ferr != nil {
+		msg = ferr.Error()
 	}
-	defer closeW()
-
-	leader := NewReplicaLeader(&c16Input{ids: r.L.Ids}, lch)
-	if r.L.Started {
-		leader.Start()
-	}
-	ctx, cancel := context.WithCancel(context.Background())
-	lwait := usync.NewWaitCloser(nil)
-	cut := r.Cut
-	if cut < 0 {
-		cut = 1 << 30
-	}
-	lright := int64(-1)
-	if r.L.D != nil {
-		lright = r.L.D.right()
-	}
-	net := &c16Net{leader: leader, lwait: lwait, ctx: ctx, cancel: cancel, cut: cut, split: r.Split, quiet: r.Quiet, rnd: rnd, lright: lright, fch: fch,
-		tail: r.L.Tail, grow: appendW}
-	rf := NewReplicaFollower(1, "vf-addr", fch, nil)
-
-	state := 1
-	var leaderSp, followerSp StartPoint
-	var stream pb.ApiService_SyncClient
-	var resp *pb.SyncResponse
-	var serr error
-	metaRounds, fuelOut := 0, false
-loop:
-	for {
-		switch state {
-		case 1:
-			leaderSp, serr = rf.protoHandShake(net)
-		case 2:
-			followerSp, serr = rf.preSync(leaderSp)
-		case 3:
-			if metaRounds == c16Fuel { // a leader that keeps answering with its snapshot: stop here
-				fuelOut = true
-				break loop
-			}
-			metaRounds++
-			stream, resp, serr = rf.metaSync(followerSp, net)
-			if serr == nil {
-				if resp.GetMeta().GetAof() {
-					state = 5
-				} else {
-					state = 4
-				}
-				continue
-			}
-		case 4:
-			serr = rf.rdbSync(followerSp, stream, resp)
-			if serr == nil {
-				followerSp, serr = rf.channel.StartPoint([]string{leaderSp.RunId})
-				if serr == nil {
-					state = 3
-					continue
-				}
-			}
-		case 5:
-			serr = rf.aofSync(followerSp, stream, resp)
-		default:
-			break loop
-		}
-		if serr != nil {
-			break loop
-		}
-		state++
-	}
-	cancel()
-	rf.wait.Close(nil)
-	lwait.Close(nil)
-
-	if net.growErr != nil {
-		return res, net.growErr
-	}
-	res.msgs = net.delivered
-	res.stage = map[int]string{1: "hs", 2: "pre", 3: "meta", 4: "rdb", 5: "aof", 6: "end"}[state]
-	var last *pb.SyncResponse
-	if len(res.msgs) > 0 {
-		last = res.msgs[len(res.msgs)-1]
-	}
-	res.cls = c16Classify(serr, last)
-	if fuelOut {
-		res.cls = "fuel"
-	}
-	res.cutModel = cut
-	if net.complete {
-		res.cutModel = len(net.delivered)
-	}
-	for _, m := range res.msgs {
-		if m.GetCode() == pb.SyncResponse_CONTINUE {
-			res.chunks = append(res.chunks, m.GetSize())
-		}
-	}
-	if net.aofOn && state == 5 {
-		_, right := fch.GetOffsetRange(fch.RunId())
-		if want := net.aofStart + net.aofBytes; right >= net.aofStart && right <= want {
-			res.lost = want - right
-		} else if right < 0 && net.aofBytes > 0 {
-			res.lost = net.aofBytes
-		}
+	switch {
+	case ferr == nil:
+		cls = "nil"
+	case errors.Is(ferr, ErrLeaderTakeover):
+		cls = "takeover"
+	case strings.Contains(msg, "empty run id"):
+		cls = "emptyid"
+	case strings.Contains(msg, "discontinuous"):
+		cls = "discont"
+	case strings.Contains(msg, "code is failure"):
+		cls = "failure"
+	case strings.Contains(msg, "code is fault"):
+		cls = "fault"
+	case strings.Contains(msg, "code is error") && ss.firstRPC.GetCode() == pb.SyncResponse_CLEAR:
+		cls = "clear"
+	case strings.Contains(msg, "code is error"):
+		cls = "error"
+	case ss.fuelHit:
+		cls = "fuel"
+	case ss.cutOn:
+		cls = "cut"
+	case ss.rpcErr:
+		cls = "rpcerr"
+	case errors.Is(ferr, io.EOF):
+		cls = "eof"
+	default:
+		cls = "other:" + msg
 	}
 	return
 }
 
+// c16Await waits for the end of the session the follower is in (Run pauses or returns)
+func (f *c16Follower) await() (ended bool, runErr error, ok bool) {
+	select {
+	case <-f.w.pauses:
+		return false, nil, true
+	case e := <-f.done:
+		return true, e, true
+	case <-time.After(20 * time.Second):
+		return false, nil, false
+	}
+}
+
+func (f *c16Follower) stop() {
+	f.rf.Stop()
+	select {
+	case <-f.done:
+	case <-time.After(5 * time.Second):
+	}
+}
+
 // ---------------------------------------------------------------- monitors
 
-// every byte under `id` in the final store is the leader's byte at (id, offset)
-// or was stored under (id, offset) before the session; same for snapshots
-func c16CheckFaithful(before, after c16Store, L c16Leader) (string, string) {
+// every byte under `id` in the final store is a byte some state of the leader held
+// under (id, offset), or was stored under (id, offset) before the session; same for snapshots
+func c16CheckFaithful(before, after c16Store, ls []c16Leader) (string, string) {
 	for _, e := range after.Dirs {
 		if e.D == nil {
 			continue
 		}
 		old, _ := before.get(e.Id)
-		var ld *c16Data
-		if e.Id == L.Cur {
-			ld = L.grown()
+		var lds []*c16Data
+		for _, l := range ls {
+			if l.Cur == e.Id && l.D != nil {
+				lds = append(lds, l.grown())
+			}
 		}
 		for i, b := range e.D.Bytes {
 			o := e.D.Base + int64(i)
 			ok := false
-			if ld != nil && o >= ld.Base && o < ld.right() && ld.Bytes[o-ld.Base] == b {
-				ok = true
+			for _, ld := range lds {
+				if o >= ld.Base && o < ld.right() && ld.Bytes[o-ld.Base] == b {
+					ok = true
+				}
 			}
 			if old != nil && o >= old.Base && o < old.right() && old.Bytes[o-old.Base] == b {
 				ok = true
@@ -1039,8 +1306,10 @@ func c16CheckFaithful(before, after c16Store, L c16Leader) (string, string) {
 		}
 		if e.D.HasSnap {
 			ok := false
-			if ld != nil && ld.HasSnap && ld.Base == e.D.Base && bytes.Equal(ld.Snap, e.D.Snap) {
-				ok = true
+			for _, ld := range lds {
+				if ld.HasSnap && ld.Base == e.D.Base && bytes.Equal(ld.Snap, e.D.Snap) {
+					ok = true
+				}
 			}
 			if old != nil && old.HasSnap && old.Base == e.D.Base && bytes.Equal(old.Snap, e.D.Snap) {
 				ok = true
@@ -1059,106 +1328,171 @@ type c16Ctx struct {
 	s *vfutil.Session
 }
 
-func (x *c16Ctx) runCase(t *testing.T, c c16Case, src string) (uncutMsgs []int) {
+func (x *c16Ctx) runCase(t *testing.T, srv *c16Server, c c16Case, src string) (uncutMsgs []int) {
 	s := x.s
-	func() {
-		rnd := vfutil.NewRand(c.Seed)
-		dir := t.TempDir()
-		fch, err := c16BuildFollower(c.Bk, dir, c.LogSize, c.F)
-		if err != nil {
-			s.Count("skip_build_follower")
-			t.Logf("c16: cannot build follower %s: %v", c.F.String(), err)
-			return
+	rnd := vfutil.NewRand(c.Seed)
+	dir := t.TempDir()
+	fch, err := c16BuildFollower(c.Bk, dir, c.LogSize, c.F)
+	if err != nil {
+		s.Count("skip_build_follower")
+		t.Logf("c16: cannot build follower %s: %v", c.F.String(), err)
+		return
+	}
+	var fol *c16Follower
+	defer func() {
+		if fol != nil {
+			fol.stop()
 		}
-		defer func() { fch.Close(); os.RemoveAll(dir) }()
-		before, problems, _ := c16Observe(c.Bk, fch, dir)
-		if len(problems) > 0 || before.String() != c.F.String() {
-			// the constructed state is not the requested one: not a statement about the follower
-			s.Count("skip_initial_state_differs")
-			t.Logf("c16: initial state %s != %s %v", before.String(), c.F.String(), problems)
-			return
-		}
-		for ri, r := range c.Rounds {
-			if r.Restart && c.Bk == "d" {
-				fch.Close()
-				fch = c16NewChannel(c.Bk, dir, c.LogSize)
-				before.Cur = ""
-			}
-			res, err := c16Session(t, c.Bk, c.LogSize, fch, r, rnd)
-			if err != nil {
-				s.Count("skip_build_leader")
-				t.Logf("c16: cannot build leader %s: %v", r.L.String(), err)
-				return
-			}
-			after, problems, stalls := c16Observe(c.Bk, fch, dir)
-			if stalls > 0 {
-				// the bytes are there, but a reader does not get past a segment boundary (C05's claim
-				// "a reader keeps following"): counted, not a C16 verdict
-				s.Add("reader_stall_at_boundary", stalls)
-			}
-			uncutMsgs = append(uncutMsgs, len(res.msgs))
-
-			replay := map[string]interface{}{"case": c.String(), "round": ri, "leader": r.L.String(), "follower_before": before.String(),
-				"follower_after": after.String(), "backend": c.Bk}
-			// ---- model op
-			ch := "."
-			if len(res.chunks) > 0 {
-				p := make([]string, len(res.chunks))
-				for i, n := range res.chunks {
-					p[i] = strconv.FormatInt(n, 10)
-				}
-				ch = strings.Join(p, ",")
-			}
-			op := fmt.Sprintf("sess %s %s %s %s %d %d %d", c.Bk, r.L.String(), before.String(), ch, res.cutModel, res.lost, c16Fuel)
-			var out []string
-			for _, m := range res.msgs {
-				out = append(out, c16MsgLine(m))
-			}
-			out = append(out, "end "+res.stage+" "+res.cls, "F "+after.String())
-			s.Op(op, out...)
-
-			// ---- monitors
-			for _, p := range problems {
-				s.Violate("follower-not-contiguous", p, replay)
-			}
-			if what, detail := c16CheckFaithful(before, after, r.L); what != "" {
-				s.Violate(what, detail, replay)
-			}
-			fd, _ := before.get(r.L.Cur)
-			sameId := r.L.Started && len(r.L.Ids) > 0 && r.L.Ids[0] == r.L.Cur && fd != nil &&
-				(c.Bk == "d" || before.Cur == r.L.Cur)
-			lr := int64(-1)
-			if r.L.D != nil {
-				lr = r.L.D.right()
-			}
-			if sameId && fd.right() > lr && r.Cut != 0 && r.Cut != 1 {
-				s.Count("ahead")
-				if res.cls != "takeover" || !c16SameData(fd, func() *c16Data { d, _ := after.get(r.L.Cur); return d }()) {
-					s.Violate("ahead-not-handover", fmt.Sprintf("follower holds %s up to %d, leader up to %d: outcome %s/%s, follower now %s",
-						r.L.Cur, fd.right(), lr, res.stage, res.cls, after.String()), replay)
-				}
-			}
-			if r.Quiet && res.lost != 0 {
-				s.Count("lost_in_quiet_mode")
-			}
-			if res.lost > 0 {
-				s.Count("cut_lost_bytes")
-			}
-			// ---- coverage
-			s.Count("sessions")
-			s.Count("bk_" + c.Bk)
-			s.Count("src_" + src)
-			s.Count("end_" + res.stage + "_" + res.cls)
-			for _, m := range res.msgs {
-				s.Count("msg_" + c16CodeName(m.GetCode()))
-			}
-			s.Count("rel_" + c16Relation(before, r.L))
-			if len(res.chunks) > 1 {
-				s.Distinct(fmt.Sprintf("%s|%s|%s|%d|%s", c.Bk, c16Relation(before, r.L), res.stage+res.cls, len(res.msgs), c16Shape(r.L)))
-			}
-			before = after
-		}
+		fch.Close()
+		os.RemoveAll(dir)
 	}()
+	before, problems, _ := c16Observe(c.Bk, fch, dir)
+	if len(problems) > 0 || before.String() != c.F.String() {
+		// the constructed state is not the requested one: not a statement about the follower
+		s.Count("skip_initial_state_differs")
+		t.Logf("c16: initial state %s != %s %v", before.String(), c.F.String(), problems)
+		return
+	}
+	for ri, r := range c.Rounds {
+		if r.Restart && c.Bk == "d" {
+			if fol != nil {
+				fol.stop()
+				fol = nil
+			}
+			fch.Close()
+			fch = c16NewChannel(c.Bk, dir, c.LogSize)
+			before.Cur = ""
+		}
+		ss, err := x.startSession(t, srv, c.Bk, c.LogSize, fch, r, rnd)
+		if err != nil {
+			s.Count("skip_build_leader")
+			t.Logf("c16: cannot build leader %s: %v", r.lsString(), err)
+			return
+		}
+		if fol == nil {
+			fol = c16StartFollower(fch, srv.addr) // the real Run, from state 1
+		} else {
+			fol.w.resume <- struct{}{} // Run goes on after its pause
+		}
+		ended, runErr, ok := fol.await()
+		ferr := fol.lg.take()
+		if ended && ferr == nil {
+			ferr = runErr
+		}
+		var res c16Result
+		res.stage, res.cls = ss.outcome(ferr)
+		ss.mu.Lock()
+		res.cutModel = ss.cut
+		if ss.complete {
+			res.cutModel = len(ss.sent)
+		}
+		aofOn, aofStart, aofBytes := ss.aofOn, ss.aofStart, ss.aofBytes
+		ss.mu.Unlock()
+		ss.stop()
+		res.msgs = ss.read()
+		if !ok || ss.rt.err != nil {
+			s.Count("skip_session_stuck")
+			t.Logf("c16: session did not end / leader transition failed (%v): %s", ss.rt.err, c.String())
+			return
+		}
+		if !ended && ferr != nil && (errors.Is(ferr, ErrBreak) || errors.Is(ferr, ErrRole)) {
+			// Run returns this error after its pause (the syncer would restart / change role)
+			fol.w.resume <- struct{}{}
+			select {
+			case <-fol.done:
+			case <-time.After(5 * time.Second):
+			}
+			ended = true
+		}
+		if ended {
+			fol = nil // the next session needs a new Run
+		}
+		for _, m := range res.msgs {
+			if m.GetCode() == pb.SyncResponse_CONTINUE {
+				res.chunks = append(res.chunks, m.GetSize())
+			}
+		}
+		if aofOn && res.stage == "aof" {
+			_, right := fch.GetOffsetRange(fch.RunId())
+			if want := aofStart + aofBytes; right >= aofStart && right <= want {
+				res.lost = want - right
+			} else if right < 0 && aofBytes > 0 {
+				res.lost = aofBytes
+			}
+		}
+		after, problems, stalls := c16Observe(c.Bk, fch, dir)
+		if stalls > 0 {
+			// the bytes are there, but a reader does not get past a segment boundary (C05's claim
+			// "a reader keeps following"): counted, not a C16 verdict
+			s.Add("reader_stall_at_boundary", stalls)
+		}
+		uncutMsgs = append(uncutMsgs, len(res.msgs))
+
+		replay := map[string]interface{}{"case": c.String(), "round": ri, "leader": r.lsString(), "views": r.viewsString(),
+			"follower_before": before.String(), "follower_after": after.String(), "backend": c.Bk}
+		// ---- model op
+		ch := "."
+		if len(res.chunks) > 0 {
+			p := make([]string, len(res.chunks))
+			for i, n := range res.chunks {
+				p[i] = strconv.FormatInt(n, 10)
+			}
+			ch = strings.Join(p, ",")
+		}
+		op := fmt.Sprintf("sess %s %s %s %s %s %d %d %d", c.Bk, r.lsString(), r.viewsString(), before.String(), ch, res.cutModel, res.lost, c16Fuel)
+		var out []string
+		for _, m := range res.msgs {
+			out = append(out, c16MsgLine(m))
+		}
+		out = append(out, "end "+res.stage+" "+res.cls, "F "+after.String())
+		s.Op(op, out...)
+
+		// ---- monitors
+		for _, p := range problems {
+			s.Violate("follower-not-contiguous", p, replay)
+		}
+		if what, detail := c16CheckFaithful(before, after, r.Ls); what != "" {
+			s.Violate(what, detail, replay)
+		}
+		l0 := r.Ls[0]
+		fd, _ := before.get(l0.Cur)
+		sameId := r.static() && l0.Serving && l0.Started && len(l0.Ids) > 0 && l0.Ids[0] == l0.Cur && fd != nil &&
+			(c.Bk == "d" || before.Cur == l0.Cur)
+		lr := int64(-1)
+		if l0.D != nil {
+			lr = l0.D.right()
+		}
+		if sameId && fd.right() > lr {
+			s.Count("ahead")
+			untouched := c16SameData(fd, func() *c16Data { d, _ := after.get(l0.Cur); return d }())
+			if !untouched || (r.Cut != 0 && r.Cut != 1 && res.cls != "takeover") {
+				s.Violate("ahead-not-handover", fmt.Sprintf("follower holds %s up to %d, leader up to %d: outcome %s/%s, follower now %s",
+					l0.Cur, fd.right(), lr, res.stage, res.cls, after.String()), replay)
+			}
+		}
+		if r.Quiet && res.lost != 0 {
+			s.Violate("lost-bytes-when-quiescent", fmt.Sprintf("%d received bytes were not stored although the follower had time to persist them", res.lost), replay)
+		}
+		if res.lost > 0 {
+			s.Count("cut_lost_bytes")
+		}
+		// ---- coverage
+		s.Count("sessions")
+		s.Count("bk_" + c.Bk)
+		s.Count("src_" + src)
+		s.Count("end_" + res.stage + "_" + res.cls)
+		for _, m := range res.msgs {
+			s.Count("msg_" + c16CodeName(m.GetCode()))
+		}
+		s.Count("rel_" + c16Relation(before, l0))
+		if !r.static() {
+			s.Count("dynamic_leader")
+		}
+		if len(res.chunks) > 1 {
+			s.Distinct(fmt.Sprintf("%s|%s|%s|%d|%s|%v", c.Bk, c16Relation(before, l0), res.stage+res.cls, len(res.msgs), c16Shape(l0), r.static()))
+		}
+		before = after
+	}
 	return
 }
 
@@ -1228,7 +1562,7 @@ func c16Relation(f c16Store, l c16Leader) string {
 // ---------------------------------------------------------------- generators
 
 func c16GenLeader(r *vfutil.Rand, id string) c16Leader {
-	l := c16Leader{Started: true, Ids: []string{id}, Cur: id, WOpen: true}
+	l := c16Leader{Serving: true, Started: true, Ids: []string{id}, Cur: id, WOpen: true}
 	base := int64(r.Range(1, 3000))
 	if r.Chance(1, 4) {
 		base = int64(r.Range(4, 400)) * 5 // large snapshot (several 4 KiB reads)
@@ -1260,7 +1594,9 @@ func c16GenLeader(r *vfutil.Rand, id string) c16Leader {
 	if l.D != nil && l.WOpen && r.Chance(1, 2) { // a live leader: more stream arrives during the session
 		l.Tail = c16HistSeg(id, l.D.right(), l.D.right()+int64(r.Range(1, 200)))
 	}
-	switch r.Intn(24) {
+	switch r.Intn(26) {
+	case 25:
+		l.Serving = false // the syncer is not (yet / any more) leader: ServiceReplica answers FAILURE
 	case 0:
 		l.Started = false
 	case 1:
@@ -1300,6 +1636,18 @@ func c16GenFollowerData(r *vfutil.Rand, id string, l c16Leader, rel int) *c16Dat
 		fr := pos(lb - int64(r.Range(1, 300)))
 		fb := pos(fr - int64(r.Range(0, 200)))
 		return c16MkData(id, fb, fr, r.Chance(1, 4))
+	case 5: // ahead by one or two bytes
+		fr := lr + int64(r.Range(1, 2))
+		fb := pos(fr - int64(r.Range(1, 100)))
+		return c16MkData(id, fb, fr, false)
+	case 6: // ends right at the leader's first offset (one before, at, one after)
+		fr := pos(lb + int64(r.Range(-1, 1)))
+		fb := pos(fr - int64(r.Range(1, 100)))
+		return c16MkData(id, fb, fr, r.Chance(1, 4))
+	case 7: // the leader is 10 MiB - 1, 10 MiB, 10 MiB + 1 ahead (preSync's threshold)
+		fr := pos(lr - 10*1024*1024 - int64(r.Range(-1, 1)))
+		fb := pos(fr - int64(r.Range(1, 100)))
+		return c16MkData(id, fb, fr, false)
 	default: // anywhere around
 		fb := pos(lb + int64(r.Range(-300, 300)))
 		return c16MkData(id, fb, fb+int64(r.Range(0, 400)), r.Chance(1, 3))
@@ -1323,7 +1671,14 @@ func c16GenCase(r *vfutil.Rand) c16Case {
 		f.Cur = lid
 		f.Dirs = []c16Entry{{lid, nil}}
 	case k <= 6: // same id
-		d := c16GenFollowerData(r, lid, l, r.Intn(5))
+		if r.Chance(1, 6) && l.D != nil { // offsets large enough for the 10 MiB boundary
+			sh := int64(11 * 1024 * 1024)
+			l.D = c16MkData(lid, l.D.Base+sh, l.D.right()+sh, l.D.HasSnap)
+			if len(l.Tail) > 0 {
+				l.Tail = c16HistSeg(lid, l.D.right(), l.D.right()+int64(len(l.Tail)))
+			}
+		}
+		d := c16GenFollowerData(r, lid, l, r.Intn(9))
 		if len(d.Bytes) == 0 && !d.HasSnap {
 			d = nil
 		}
@@ -1376,7 +1731,7 @@ func c16GenCase(r *vfutil.Rand) c16Case {
 			l.Tail = c16HistSeg(lid, l.D.right(), l.D.right()+int64(len(l.Tail)))
 		}
 	}
-	rd := c16Round{L: l, Cut: -1, Quiet: true}
+	rd := c16Round{Ls: []c16Leader{l}, Cut: -1, Quiet: true}
 	if r.Chance(1, 3) {
 		rd.Split = vfutil.Pick(r, []int{1, 3, 17, 100})
 	}
@@ -1424,6 +1779,7 @@ func c16Evolve(r *vfutil.Rand, l c16Leader) c16Leader {
 	if id != l.Cur && r.Bool() {
 		n.Ids = []string{id, l.Cur}
 	}
+	n.Serving = true
 	n.Started = true
 	n.WOpen = true
 	n.D = c16MkData(id, base, right, snap)
@@ -1434,6 +1790,73 @@ func c16Evolve(r *vfutil.Rand, l c16Leader) c16Leader {
 	return n
 }
 
+// what the leader's own input does while followers are being served (syncer/input.go):
+// the states it passes through, and the read of which request sees which
+func c16GenDyn(r *vfutil.Rand, l0 c16Leader) ([]c16Leader, [][4]int) {
+	seq := []c16Leader{l0}
+	other := "idC"
+	if l0.Cur == "idC" {
+		other = "idA"
+	}
+	kind := r.Intn(4)
+	if l0.D == nil || l0.Cur == "" {
+		kind = 1
+	}
+	switch kind {
+	case 0: // PSYNC2 fail-over: ids first, then the cache is relabelled, then the new master's stream
+		s1 := l0
+		s1.Tail = nil
+		s1.Ids = []string{other, l0.Cur}
+		s2 := s1
+		s2.Cur = other
+		s3 := s2
+		d := *l0.D
+		d.Bytes = append(append([]byte(nil), l0.D.Bytes...), c16HistSeg(other, l0.D.right(), l0.D.right()+int64(r.Range(1, 120)))...)
+		s3.D = &d
+		s2.WOpen, s3.WOpen = true, true
+		seq = append(seq, s1, s2, s3)
+	case 1: // full resynchronisation under a new id: setRunIds, DelRunId, SetRunId, snapshot + stream
+		s1 := l0
+		s1.Tail = nil
+		s1.Ids = []string{other}
+		s2 := c16Leader{Serving: l0.Serving, Started: l0.Started, Ids: []string{other}}
+		s3 := s2
+		s3.Cur = other
+		s4 := s3
+		base := int64(r.Range(1, 3000))
+		if l0.D != nil && r.Bool() { // overlapping offsets: the stale offset of the old id is valid in the new one
+			base = l0.D.Base + int64(r.Range(-50, 50))
+			if base < 1 {
+				base = 1
+			}
+		}
+		s4.D = c16MkData(other, base, base+int64(r.Range(0, 300)), true)
+		s4.WOpen = true
+		seq = append(seq, s1, s2, s3, s4)
+	default: // same id: grows / collects / takes a new snapshot
+		s1 := c16Evolve(r, l0)
+		for s1.Cur != l0.Cur {
+			s1 = c16Evolve(r, l0)
+		}
+		s1.Serving, s1.Tail = l0.Serving, nil
+		seq = append(seq, s1)
+	}
+	m := len(seq) - 1
+	n := r.Intn(3)       // the request during which the input acts
+	k := r.Intn(4)       // … before which of its reads
+	j := 1 + r.Intn(m)   // … how far it gets there
+	var views [][4]int
+	for i := 0; i < n; i++ {
+		views = append(views, [4]int{})
+	}
+	var v [4]int
+	for p := k; p < 4; p++ {
+		v[p] = j
+	}
+	views = append(views, v, [4]int{m, m, m, m})
+	return seq, views
+}
+
 // ---------------------------------------------------------------- the test
 
 func TestVerifC16(t *testing.T) {
@@ -1442,6 +1865,11 @@ func TestVerifC16(t *testing.T) {
 	defer s.Close()
 	x := &c16Ctx{s: s}
 	r := vfutil.NewRand(c16Mix(vfutil.Seed())) // (NewRand(s) and NewRand(s+1) are the same stream shifted by one)
+	srv0, err := c16NewServer()
+	if err != nil {
+		t.Fatal(err)
+	}
+	defer srv0.gs.Stop()
 
 	if rp := os.Getenv("VERIF_REPLAY"); rp != "" {
 		if b, err := os.ReadFile(rp); err == nil {
@@ -1449,7 +1877,7 @@ func TestVerifC16(t *testing.T) {
 				line := string(b)[i+9:]
 				line = line[:strings.Index(line, `"`)]
 				if c, err := c16ParseCase(line); err == nil {
-					x.runCase(t, c, "replay")
+					x.runCase(t, srv0, c, "replay")
 				}
 			}
 		}
@@ -1457,17 +1885,16 @@ func TestVerifC16(t *testing.T) {
 	for _, line := range vfutil.Corpus("C16") {
 		c, err := c16ParseCase(line)
 		if err != nil {
-			t.Logf("c16: bad corpus line %q: %v", line, err)
+			s.Violate("bad-corpus-line", err.Error(), map[string]interface{}{"line": line})
 			continue
 		}
-		x.runCase(t, c, "corpus")
+		x.runCase(t, srv0, c, "corpus")
 	}
 
 	pairs := vfutil.Scale(70, 2500)
 	maxCuts := vfutil.Scale(6, 40)
-	// every family (one generated pair + its cuts + later leader states) draws from its
-	// own fork of the seed; families run concurrently (a CLEAR answer makes the real
-	// follower sleep one second)
+	// every family (one generated pair + its cuts + later / changing leader states) draws
+	// from its own fork of the seed; families run concurrently, one gRPC server each
 	type job struct {
 		c c16Case
 		r *vfutil.Rand
@@ -1475,11 +1902,16 @@ func TestVerifC16(t *testing.T) {
 	jobs := make(chan job)
 	var wg sync.WaitGroup
 	for w := 0; w < 12; w++ {
+		srv, err := c16NewServer()
+		if err != nil {
+			t.Fatal(err)
+		}
+		defer srv.gs.Stop()
 		wg.Add(1)
 		go func() {
 			defer wg.Done()
 			for j := range jobs {
-				x.family(t, j.c, j.r, maxCuts)
+				x.family(t, srv, j.c, j.r, maxCuts)
 			}
 		}()
 	}
@@ -1489,10 +1921,29 @@ func TestVerifC16(t *testing.T) {
 	}
 	close(jobs)
 	wg.Wait()
+
+	// a class of states that can no longer be built must not disappear silently
+	s.Stats["sessions"] += 0
+	skips := 0
+	for k, v := range s.Stats {
+		if strings.HasPrefix(k, "skip_") {
+			skips += v
+		}
+	}
+	if skips*50 > s.Stats["sessions"] {
+		s.Violate("harness-skips", fmt.Sprintf("%d cases could not be built or did not end (sessions run: %d): %v", skips, s.Stats["sessions"], s.Stats),
+			map[string]interface{}{"skips": skips})
+	}
+	for _, k := range []string{"rel_prefix", "rel_equal", "rel_ahead", "rel_collected", "rel_collected-snap", "rel_far-behind", "rel_otherid-within",
+		"rel_leader-empty", "dynamic_leader", "end_meta_takeover", "end_meta_error", "end_rdb_cut", "end_aof_cut", "msg_CLEAR", "msg_FAILURE"} {
+		if pairs >= 70 && s.Stats[k] == 0 {
+			s.Violate("harness-class-missing", "no session of class "+k, map[string]interface{}{"class": k})
+		}
+	}
 }
 
-func (x *c16Ctx) family(t *testing.T, c c16Case, r *vfutil.Rand, maxCuts int) {
-	ms := x.runCase(t, c, "gen")
+func (x *c16Ctx) family(t *testing.T, srv *c16Server, c c16Case, r *vfutil.Rand, maxCuts int) {
+	ms := x.runCase(t, srv, c, "gen")
 	if len(ms) == 0 {
 		return
 	}
@@ -1512,21 +1963,40 @@ func (x *c16Ctx) family(t *testing.T, c c16Case, r *vfutil.Rand, maxCuts int) {
 		r0.Cut = k
 		r0.Quiet = !r.Chance(1, 4)
 		cc.Rounds = []c16Round{r0}
-		// … and resynchronise afterwards against a later state of the leader
+		// … and resynchronise afterwards (the same Run goes on) against a later state of the leader
 		if r.Chance(1, 2) {
-			l2 := c16Evolve(r, r0.L)
-			r1 := c16Round{L: l2, Cut: -1, Quiet: true, Restart: r.Chance(1, 5)}
+			l2 := c16Evolve(r, r0.Ls[0])
+			r1 := c16Round{Ls: []c16Leader{l2}, Cut: -1, Quiet: true, Restart: r.Chance(1, 5)}
 			if r.Chance(1, 3) {
 				r1.Cut = r.Intn(6)
 			}
 			if r.Chance(1, 4) {
 				r1.Split = vfutil.Pick(r, []int{2, 50})
 			}
+			if r.Chance(1, 4) {
+				r1.Ls, r1.Views = c16GenDyn(r, l2)
+			}
 			cc.Rounds = append(cc.Rounds, r1)
 			if r.Chance(1, 3) {
-				cc.Rounds = append(cc.Rounds, c16Round{L: c16Evolve(r, l2), Cut: -1, Quiet: true})
+				cc.Rounds = append(cc.Rounds, c16Round{Ls: []c16Leader{c16Evolve(r, l2)}, Cut: -1, Quiet: true})
 			}
 		}
-		x.runCase(t, cc, "cut")
+		x.runCase(t, srv, cc, "cut")
+	}
+	// the leader's own input acts during the session
+	for i := 0; i < 2; i++ {
+		cc := c
+		r0 := c.Rounds[0]
+		r0.Ls, r0.Views = c16GenDyn(r, r0.Ls[0])
+		r0.Cut = -1
+		if r.Chance(1, 3) {
+			r0.Cut = r.Intn(m + 2)
+		}
+		r0.Quiet = true
+		cc.Rounds = []c16Round{r0}
+		if r.Chance(1, 2) {
+			cc.Rounds = append(cc.Rounds, c16Round{Ls: []c16Leader{r0.Ls[len(r0.Ls)-1]}, Cut: -1, Quiet: true})
+		}
+		x.runCase(t, srv, cc, "dyn")
 	}
 }
